@@ -329,6 +329,10 @@ func (r *run) EvaluateTemplateText(template string, escaping excellent.Escaping,
 		log(events.NewWarning(w))
 	}
 	if truncate {
+		if max := r.Session().Engine().Options().MaxTemplateChars; max < 3 {
+			// no room for an ellipsis
+			return stringsx.Truncate(value, max), err == nil
+		}
 		value = stringsx.TruncateEllipsis(value, r.Session().Engine().Options().MaxTemplateChars)
 	}
 	return value, err == nil
